@@ -34,13 +34,14 @@ RawFrames ==
     C(4, 3, 1), C(0, 3, 1), C(4, 1, 0), C(4, 5, 1), C(4, 0, 1),
     ARaw(5, 4, 1, 5, [pad |-> -1, pid |-> 2, bl |-> 1, apad |-> 0]) }
 Cont64 == [i \in 1..64 |-> C(IF i = 64 THEN 4 ELSE 0, 3, 1)]
+Cont64e == [i \in 1..64 |-> C(0, 3, 0)]          \* empty CONTINUATION frames count too
 mcAdvS ==
   Singles(RawFrames \cup {APing("B", FALSE), AAck, AH(5, "req_get", TRUE), AD(1, 2, FALSE, -1), AWU(0, 3)})
   \cup { <<APing("A", FALSE), D(8, 1, 0, -1)>>, <<ASet(<<<<4, 9>>>>), AH(5, "req_get", FALSE), D(0, 0, 2, -1), APing("B", FALSE)>>,
          <<AD(1, 1, FALSE, -1), ARaw(6, 0, 0, 7, [tag |-> "A"]), AD(1, 1, FALSE, -1)>>,
          <<AH(7, "req_get", TRUE), D(0, 1, 16385, -1)>>, <<APing("A", FALSE), ARaw(8, 0, 0, 4, [inc |-> 0])>>,
          <<H(0, 3, 1, -1, 1, 0), C(0, 3, 1), C(4, 3, 1)>>, <<H(0, 3, 1, -1, 1, 0), APing("A", FALSE)>>, <<H(0, 3, 1, -1, 1, 0), C(4, 5, 1)>>,
-         <<H(0, 3, 1, -1, 1, 0)>> \o Cont64, <<H(0, 3, 1, -1, 1, 0)>> \o SubSeq(Cont64, 1, 63), <<H(1, 1, 0, -1, 0, 0), C(4, 1, 0)>> }
+         <<H(0, 3, 1, -1, 1, 0)>> \o Cont64, <<H(0, 3, 1, -1, 1, 0)>> \o Cont64e, <<H(0, 3, 1, -1, 1, 0)>> \o SubSeq(Cont64, 1, 63), <<H(1, 1, 0, -1, 0, 0), C(4, 1, 0)>> }
 mcSetup == Handshake("s", <<>>) \o <<CRecv("s", <<AH(1, "req_post_cl3", FALSE)>>)>>
 mcQSids == <<1, 3>>
 mcCfgC == DefaultCfg
